@@ -182,6 +182,16 @@ def scenarios(tier):
                 dev_bound=2, max_depth=250))
     S.append(mk("pair-alloc-same-dev2", cfg("alloc", "same", "delegate", drops=(1, 1), fine=(0, 1), reorder=1, dup=1, srverr=1),
                 dev_bound=2, max_depth=250))
+    # the server begins the WebSocket closing handshake (it is restarting): until the connection is gone every transmission the
+    # library attempts raises Disconnected inside it; any API call may fall into that window, then the connection is lost and replaced
+    WS = ALL + ("wsclosing",)
+    for flow in ("set", "alloc", "input-short"):
+        S.append(mk("solo-%s-wsclosing" % flow, cfg(flow, None, "deferred", sends=1 if flow != "input-short" else 0, wsclosing=True, explored=WS),
+                    max_depth=90, max_states=300000))
+    S.append(mk("pair-same-wsclosing-dev2", cfg("set", "same", "delegate", drops=(1, 0) if q else (1, 1), fine=(0,) if q else (0, 1), wsclosing=True, explored=WS),
+                dev_bound=2 if q else 3, max_depth=250))
+    S.append(mk("pair-input-same-wsclosing-dev2", cfg("input-short", "same", "deferred", drops=(1, 0), fine=(0,), wsclosing=True, explored=WS),
+                dev_bound=2 if q else 3, max_depth=250))
     # welcome variants
     for flow in ("set", "alloc", "input-short"):
         S.append(mk("solo-unwelcome-%s" % flow, cfg(flow, None, "deferred", sends=0, welcome={"error": "too old"}), max_depth=80))
